@@ -119,7 +119,7 @@ def valid_name(name):
         isinstance(name, str)
         and len(name) > 0
         and len(name) < 81
-        and not re.search(r"^.*[ <>{}[\]?*\"#%\\^|~`$&,;:/].*$", name)
+        and not re.search(r"[\x00-\x1f\x7f-\x9f <>{}[\]?*\"#%\\^|~`$&,;:/]", name)
     )
 
 def valid_role_arn(arn):
@@ -1391,7 +1391,7 @@ class RestAPI(object):
                 the Task rather than complete it successfully.
                 """
                 error = params.get("error") or "States.TaskFailed"
-                cause = params.get("cause")
+                cause = params.get("cause") or ""  # The cause is optional too.
 
                 """
                 First check if the error or cause exceed length limits.
